@@ -58,6 +58,7 @@ func (l *LabelSet) String() string {
 	sb.WriteByte('{')
 
 	keys := maps.Keys(l.labels)
+	keys = verifOrder(keys)
 	slices.Sort(keys)
 
 	i := 0
@@ -121,6 +122,14 @@ func (l *LabelSet) Delete(s logql.Label) {
 
 // Range iterates over label set.
 func (l *LabelSet) Range(cb func(logql.Label, pcommon.Value)) {
+	if verifEnabled {
+		for _, k := range verifOrder(maps.Keys(l.labels)) {
+			if v, ok := l.labels[k]; ok {
+				cb(k, v)
+			}
+		}
+		return
+	}
 	for k, v := range l.labels {
 		cb(k, v)
 	}
